@@ -156,6 +156,15 @@ def resolve_local(f, e, depth=0):
             for t in ast.walk(n.target if hasattr(n, "target") else n):
                 if isinstance(t, ast.Name) and isinstance(getattr(t, "ctx", None), ast.Store):
                     defs.setdefault(t.id, []).append(None)
+        elif isinstance(n, ast.Assign) and len(n.targets) == 1 and isinstance(n.targets[0], (ast.Tuple, ast.List)) and all(isinstance(x, ast.Name) for x in n.targets[0].elts) and isinstance(n.value, (ast.Name, ast.Tuple, ast.List)):
+            # a, b = pair  ->  a is pair[0], b is pair[1];   a, b = x, y  ->  a is x, b is y
+            for i_, x in enumerate(n.targets[0].elts):
+                if isinstance(n.value, ast.Name):
+                    defs.setdefault(x.id, []).append(ast.Subscript(value=ast.Name(id=n.value.id, ctx=ast.Load()), slice=ast.Constant(value=i_), ctx=ast.Load()))
+                elif len(n.value.elts) == len(n.targets[0].elts):
+                    defs.setdefault(x.id, []).append(n.value.elts[i_])
+                else:
+                    defs.setdefault(x.id, []).append(None)
         elif isinstance(n, ast.Assign):
             for t in n.targets:
                 for x in ast.walk(t):
